@@ -38,6 +38,9 @@ type TimeWheel struct {
 
 	updateNotify chan time.Time
 	stopNotify   chan struct{}
+	// closed is closed by Close after the tick goroutine has stopped, it
+	// releases Add calls that raced with Close.
+	closed chan struct{}
 
 	dispatch func(TimeSlot)
 }
@@ -47,6 +50,7 @@ func NewTimeWheel(dispatch func(TimeSlot)) *TimeWheel {
 		slots:        list.New(),
 		stopNotify:   make(chan struct{}),
 		updateNotify: make(chan time.Time),
+		closed:       make(chan struct{}),
 		dispatch:     dispatch,
 	}
 	go tw.tick()
@@ -67,7 +71,12 @@ func (tw *TimeWheel) Add(target time.Time, value interface{}) {
 	tw.slots.PushBack(TimeSlot{Time: target, Value: value})
 	tw.slotsLock.Unlock()
 
-	tw.updateNotify <- target
+	// Close can run after the stopped check above: there is nobody to receive
+	// the notification then and the channel must not be closed under us.
+	select {
+	case tw.updateNotify <- target:
+	case <-tw.closed:
+	}
 }
 
 func (tw *TimeWheel) Close() {
@@ -83,7 +92,7 @@ func (tw *TimeWheel) Close() {
 
 	tw.stopNotify = nil
 
-	close(tw.updateNotify)
+	close(tw.closed)
 }
 
 func (tw *TimeWheel) tick() {
